@@ -152,3 +152,36 @@ def rerun(rdir):
     status, detail = classify(out, vals)
     print("replay:", status, "-", detail)
     return 1 if status == "reproduced" else 0
+
+
+def witness_replays(root, repo, pid, run, harness, samples, params, overlays, limit):
+    """Replay solver-produced witness vectors of complete (passing) paths natively:
+    the native run with the same inputs must also finish without a violation.
+    Returns (agreed, mismatches[list of str])."""
+    if run.get("goos", "linux") != "linux" or run.get("no_replay"):
+        return 0, []
+    vecs = [s_ for s_ in samples if s_.get("nondet")][:limit]
+    if not vecs:
+        return 0, []
+    rdir = os.path.join(root, "replays", pid, "witness-%s" % harness)
+    if os.path.exists(rdir):
+        shutil.rmtree(rdir)
+    os.makedirs(rdir)
+    ov, err = build(root, repo, rdir, run, overlays)
+    if err:
+        return 0, ["witness replay build failed: " + err]
+    agreed, bad = 0, []
+    for i, v in enumerate(vecs):
+        json.dump(dict(harness=harness, outcome="ok", msg="", where="", nondet=v["nondet"], params=params,
+                       run=dict(goos="linux", pkg=run.get("pkg", "."), overlays=[os.path.basename(o) for o in overlays])),
+                  open(os.path.join(rdir, "values.json"), "w"))
+        out = run_native(repo, rdir, run)
+        m = re.search(r"^VERIF-REPLAY: (\w+)(?:: (.*))?$", out, re.M)
+        if m and m.group(1) == "ok":
+            agreed += 1
+        else:
+            bad.append("%s witness %d: engine path passes, native says %s" % (harness, i, (m.group(0) if m else out[-300:])))
+            shutil.copy(os.path.join(rdir, "values.json"), os.path.join(rdir, "values-mismatch-%d.json" % i))
+    if not bad:
+        shutil.rmtree(rdir)
+    return agreed, bad
